@@ -1,12 +1,21 @@
 (* C17, step level: reusable relational lemmas about every function a poll calls.
    - [st_rel]: how the connection state may move once our FIN is numbered (never back, the number kept);
-   - [pk_ok]:  what a datagram emitted in a given state looks like (never ST_RESET; an ST_FIN only once
-               our FIN is numbered, and then carrying that number);
+   - [pk_ok]:  what a datagram emitted in a given state looks like (never ST_RESET / ST_SYN; an ST_FIN only
+               once our FIN is numbered, and then carrying that number);
    - [G0] / [G]: the relation every function of a poll satisfies between its entry and exit state
-               (state movement, datagrams appended, inbox only drained, inbox_closed kept; [G] adds:
-               nobody but transition_to_fin_wait_1 enters FinWait1), proved function by function up
-               to poll_body;
-   - errors: no function but process_incoming_message reports ErrStResetReceived. *)
+               (state movement, datagrams appended, inbox only drained, inbox_closed and options kept;
+               [G] adds [W]: nobody but transition_to_fin_wait_1 enters FinWait1), proved function by
+               function; [GE] is what an error leaves behind (the channel-closed arm of the receive loop
+               leaves FinWait1 only with ErrSend); no function but process_incoming_message reports
+               ErrStResetReceived ([sG]);
+   - poll_body in parts ([body_head] / [body_mid] / [body_back]) with generic walks under G
+               ([body_head_walk], [body_mid_walk], [body_front_walk]) and the G0 summary of a whole
+               poll_body ([poll_body_G0]); [poll_loop_ind]: induction over the restart loop;
+   - [GN]: datagrams other than ST_FIN (incoming path, SYN-ACK, ACKs); the reset error comes from the
+               state table with the state Closed ([recv_loop_N], [process_all_N]); send_tx_queue asks
+               for a restart only when it emitted ST_DATA only ([stq_restart_data]);
+   - [LB]: the bound 0 <= segmented bytes <= ring length (with the segment-table and segment-size
+               invariants), proved Hoare-style for every function, poll, every event and vsock_new. *)
 From Utp Require Conn.VSock_Inv.
 From Utp Require Import Base.Prelude Wire.SeqNr Wire.Header Wire.Header_Proofs Rtt.Rtte Mtu.SegSizes
   Rx.Rx Tx.Ring Tx.Segments Tx.Segments_Proofs Conn.VSock_LemmasIn Conn.Recovery Conn.Msg Conn.VSockRec Conn.VSock Conn.VSockRun Conn.VObs
